@@ -252,8 +252,8 @@ def check_protocol(fx, R, cq, dim):
                     bad = bad or (end, n_entries, want, idx)
             if bad:
                 R.violated('Y3', cname.split('<')[0] + '::cast():parametric-stop', 'cast() stops when `%s`: for the axis-aligned ray from a cell centre (0) to %s at resolution 1/2 - an end point exactly on a cell border, '
-                           'which the quantifier names - the crossing parameters are 1/4, 3/4, 5/4, ... and the range is %s, so the loop emits %d cells; the end point lies in cell %d, so |end - origin|_1 + 1 = %d '
-                           'cells are required and the ray must end in the end point\'s own cell' % (pp(next(x for x in walk(c0['body']) if x.get('k') == 'While')['c']), bad[0], abs(bad[0]), bad[1], bad[3], bad[2]),
+                           'which the quantifier names - the crossing parameters are 1/4, 3/4, 5/4, ... and the range is %s, so the loop emits %d cells; the index map puts the end point in cell %d, so |end - origin|_1 + 1 = %d '
+                           'entries are required (exactly the L1 distance between origin and end cells, plus one)' % (pp(next(x for x in walk(c0['body']) if x.get('k') == 'While')['c']), bad[0], abs(bad[0]), bad[1], bad[3], bad[2]),
                            fx.rel(c0['loc']), 'E-STEP')
             else:
                 R.undecided('Y3', cname + '::cast()', 'cast loop stops on a comparison of crossing parameters; it gives the right count on the border witnesses, the general case is a floating-point statement')
